@@ -271,12 +271,13 @@ Qed.
 
 (* ---------------------------------------------------------------- consistency of a Clean memo *)
 (* the whole tracked cone of the memo is current: every tracked entry of every last-run log in
-   it shows the source's present value; memo sources are themselves consistent *)
+   it shows the source's present value (for a source memo with a coarse comparator: a value the
+   comparator does not tell from the present one); memo sources are themselves consistent *)
 Inductive ConsistentM (s : state) : nat -> Prop :=
 | cons_memo j :
     memob j = true -> cache (getn s j) <> None ->
     (forall x vx, In (x, vx, true) (rlog (getn s j)) ->
-                  cur s x = vx /\ (memob x = true -> ConsistentM s x)) ->
+                  eqv p x (cur s x) vx /\ (memob x = true -> ConsistentM s x)) ->
     ConsistentM s j.
 
 Lemma clean_consistent s : Inv0 s ->
